@@ -473,3 +473,196 @@ func TestC11Handler(t *testing.T) { hTest(t, "C11", "TestC11Handler", "log-") }
 // TestC02Handler: lines reach successive shells gap-free through the real
 // request handler for every writer kind and fault position.
 func TestC02Handler(t *testing.T) { hTest(t, "C02", "TestC02Handler", "delivery-") }
+
+// ---------------------------------------------------------------- C03 through the handler
+
+// scriptedBody is a request body that returns scripted (data, error) pairs:
+// zero-length reads, data returned together with the terminal error, and the
+// four kinds of terminal error.
+type scriptedBody struct {
+	mu    sync.Mutex
+	steps []HRead
+	i     int
+	gate  chan struct{} // closed when the body may start returning reads
+}
+
+// HRead is one Read result of the scripted body.
+type HRead struct {
+	Data string `json:"data"`
+	Err  string `json:"err"` // "" eof unexpected closed other
+}
+
+func (b *scriptedBody) Read(p []byte) (int, error) {
+	<-b.gate
+	b.mu.Lock()
+	defer b.mu.Unlock()
+	if b.i >= len(b.steps) {
+		return 0, io.EOF
+	}
+	st := &b.steps[b.i]
+	n := copy(p, st.Data)
+	if n < len(st.Data) { // buffer smaller than the step: hand out the rest next time
+		st.Data = st.Data[n:]
+		return n, nil
+	}
+	b.i++
+	switch st.Err {
+	case "eof":
+		return n, io.EOF
+	case "unexpected":
+		return n, io.ErrUnexpectedEOF
+	case "closed":
+		return n, io.ErrClosedPipe
+	case "other":
+		return n, errInjected
+	}
+	return n, nil
+}
+func (b *scriptedBody) Close() error { return nil }
+
+// HOutCase is one output stream driven through the real handler.
+type HOutCase struct {
+	Mode  string  `json:"mode"` // pair | io
+	Reads []HRead `json:"reads"`
+}
+
+func runHOut(c HOutCase) (key, what string, classes []string) {
+	s, err := Start(Cfg{Listen: "127.0.0.1:0"})
+	if err != nil {
+		panic(err)
+	}
+	defer s.Stop()
+	h := s.S.VerifHandler()
+	classes = append(classes, "L2h-mode-"+c.Mode)
+	body := &scriptedBody{steps: append([]HRead(nil), c.Reads...), gate: make(chan struct{})}
+	var want strings.Builder
+	for _, r := range c.Reads {
+		want.WriteString(r.Data)
+		if r.Err != "" {
+			classes = append(classes, "L2h-end-"+r.Err)
+			if r.Data != "" {
+				classes = append(classes, "L2h-data-with-terminal-error")
+			}
+			break
+		}
+		if r.Data == "" {
+			classes = append(classes, "L2h-zero-length-read")
+		}
+	}
+	ctx, cancel := context.WithCancel(context.Background())
+	defer cancel()
+	from := s.Seq()
+	var wg sync.WaitGroup
+	serve := func(w http.ResponseWriter, method, path string, b io.Reader) {
+		defer wg.Done()
+		r := httptest.NewRequest(method, path, b).WithContext(ctx)
+		r.RemoteAddr = "10.0.0.3:3333"
+		h.ServeHTTP(w, r)
+	}
+	in := newHW("flusherr", 0, 0, 0, c.Mode == "io")
+	if c.Mode == "io" {
+		wg.Add(1)
+		go serve(in.iface(), "POST", "/io", body)
+	} else {
+		wg.Add(2)
+		go serve(in.iface(), "GET", "/i/h3", nil)
+		go serve(httptest.NewRecorder(), "PUT", "/o/h3", body)
+	}
+	done := make(chan struct{})
+	go func() { wg.Wait(); close(done) }()
+	defer func() {
+		cancel()
+		select {
+		case <-done:
+		case <-time.After(Wait):
+		}
+	}()
+	if _, ok := s.WaitLine(Wait, from, "Shell is ready"); !ok {
+		return "HARNESS", "shell did not attach through the handler", classes
+	}
+	close(body.gate)
+	// the stream ends by itself (scripted terminal error or EOF after the last step)
+	if _, ok := s.WaitLine(Wait, from, "Shell is gone"); !ok {
+		return "output-end-not-noticed", "the output stream returned its terminal error but the shell was not ended", classes
+	}
+	s.Barrier()
+	var shown strings.Builder
+	closeSeq := int64(0)
+	for _, l := range s.Lines() {
+		if l.Seq <= from {
+			continue
+		}
+		if l.CL.Plain {
+			if closeSeq != 0 {
+				return "output-shown-after-close-notice", fmt.Sprintf("output %q was displayed after the notice that the output stream closed", clip(l.CL.Line, 60)), classes
+			}
+			shown.WriteString(l.CL.Line)
+		} else if strings.Contains(l.CL.Line, "utput") && strings.Contains(l.CL.Line, "closed") && closeSeq == 0 {
+			closeSeq = l.Seq
+		}
+	}
+	if shown.String() != want.String() {
+		d := firstDiffS(shown.String(), want.String())
+		return "output-incomplete-at-own-end", fmt.Sprintf("the stream delivered %d bytes before ending by itself, %d were displayed (first difference at %d: shown %q, sent %q)", want.Len(), shown.Len(), d, clip(shown.String()[d:], 40), clip(want.String()[min(d, want.Len()):], 40)), classes
+	}
+	var rec strings.Builder
+	for _, r := range s.Recs() {
+		if r.Msg == iobroker.LMShellIO && r.Attrs[iobroker.LKDirection] == "output" {
+			rec.WriteString(r.Attrs[iobroker.LKData])
+		}
+	}
+	if rec.String() != want.String() {
+		return "log-output-records-differ", fmt.Sprintf("output records hold %d bytes, %d were delivered", rec.Len(), want.Len()), classes
+	}
+	return "", "", classes
+}
+
+func TestC03Handler(t *testing.T) {
+	cc := coll("C03")
+	if raw := ev.Replay("TestC03Handler"); raw != nil {
+		var c HOutCase
+		if err := json.Unmarshal(raw, &c); err != nil {
+			t.Fatal(err)
+		}
+		k, w, _ := runHOut(c)
+		if k == "HARNESS" {
+			cc.Inconclusive(w)
+			t.Skip(w)
+		}
+		if k != "" && !strings.HasPrefix(k, "log-") {
+			t.Fatal(cc.Violation("TestC03Handler", k, w, c, nil))
+		}
+		return
+	} else if ev.Replaying() {
+		t.Skip()
+	}
+	ev.RapidChecks(ev.Scale(200, 6000))
+	rapid.Check(t, func(rt *rapid.T) {
+		c := HOutCase{Mode: rapid.SampledFrom([]string{"pair", "io"}).Draw(rt, "mode")}
+		n := rapid.IntRange(1, 8).Draw(rt, "nreads")
+		for i := 0; i < n; i++ {
+			r := HRead{Data: fmt.Sprintf("<%d:", i) + rapid.SampledFrom([]string{"", "x", "out\n", "100% %d", "\xff\xfe\x00", strings.Repeat("D", 3000), strings.Repeat("E", 70000)}).Draw(rt, "data") + ">"}
+			if rapid.IntRange(0, 4).Draw(rt, "zero") == 0 {
+				r.Data = ""
+			}
+			if i == n-1 {
+				r.Err = rapid.SampledFrom([]string{"", "eof", "eof", "unexpected", "closed", "other"}).Draw(rt, "err")
+			}
+			c.Reads = append(c.Reads, r)
+		}
+		canon, _ := json.Marshal(c)
+		k, w, cl := runHOut(c)
+		last := c.Reads[len(c.Reads)-1]
+		cc.Case("L2h-out"+string(canon), last.Err != "" && last.Data != "", cl...)
+		if cc.WantSample() && len(canon) < 2000 {
+			cc.Sample(map[string]any{"L2h": json.RawMessage(canon)})
+		}
+		if k == "HARNESS" {
+			cc.Inconclusive(w)
+			rt.Skip(w)
+		}
+		if k != "" && !strings.HasPrefix(k, "log-") {
+			rt.Fatalf("%v", cc.Violation("TestC03Handler", k, w, c, nil))
+		}
+	})
+}
